@@ -9,8 +9,46 @@ TRUST = ("Trusted, not analysed: cosmos-sdk BaseApp / gov / ethermint cache-cont
          "on every path of the current source; it is not a proof of the behavioural statement.")
 # id -> (claimed?, text, technique, design_ref)  — filled in as checks are built
 CLAIMS = {
- 'C01': ("Decides, on every path of the receive code: receipt lookup with rejecting found-edge dominates the single receipt write; lookup, write and proof verification use the same (src,dst,seq) of the one packet decoded from msg.Packet; the receipt key depends on all three components; the receipts family has one writer, no deleter, two callers; callback and ack writes are dominated by successful keeper receive. Not decided: histories, BaseApp revert, contract effects.",
-         "SSA dominance + canonical access-path identity + key-shape extraction + who-may-call over the type-checked program", "§5 C01"),
+ 'C01': ("Decides on every path of the receive code: a receipt lookup whose found-edge rejects dominates the single receipt write; lookup, write and proof verification use the same (src,dst,seq) of the one packet decoded from msg.Packet; the receipt key depends on all three components; the receipts family has one writer, no deleter and two callers; callback and ack writes are dominated by a successful keeper receive. Not decided: histories, BaseApp revert, contract effects.",
+         "SSA dominance + canonical access-path identity + key-shape extraction + who-may-call", "§5 C01"),
+ 'C02': ("Decides that receive / acknowledge accept only after the light client of the decoded packet's source (resp. destination) chain verified, at msg.ProofHeight, the recomputed packet hash (resp. hash of the ack bytes) under the packet's own triple, that the stored commitment equals the recomputed one before an ack is processed, that every write and success return is dominated by those checks, and that each client type's verifier ends in its membership check on the right path/slot. Frozen canonical guard tables (picked by source position, compared by canonical form). Not decided: soundness of ICS-23 / MPT / light verification.",
+         "frozen canonical guard/effect tables over SSA path conditions; argument-origin identity", "§5 C02"),
+ 'C03': ("Decides the Go-side necessary conditions of 'delivered xor refunded': the destination callback runs on the cache context, write() is unreachable from the callback's error edge, every CallPacket/CallEVM site either propagates its error or runs on a cache context, a post-transaction hook failure marks the response failed, and the acknowledgement handler records exactly one outcome / fee / callback after verification. Not decided: conservation arithmetic in contract byte code, multi-chain histories.",
+         "SSA path conditions, reachability from branch edges, error-propagation discipline over all call sites", "§5 C03"),
+ 'C04': ("Decides that SendPacket rejects unless sequence == stored next sequence, stores loaded+1 for the same pair, hands that same value to the contract counter, stores the commitment of that packet under its own sequence, each exactly once per success path, with all writes dominated by all checks; that the EVM hook only acts on PacketSent logs of the packet contract and returns every error; and who may write the sequence/commitment families. Not decided: contract counter, gap-freedom over histories.",
+         "frozen canonical tables + acyclic path enumeration (exactly-once) + who-may-call/who-may-write", "§5 C04"),
+ 'C05': ("Decides that WriteAcknowledgement rejects an existing ack and stores the hash of its parameter under the packet's own triple, the acks family is never deleted or written elsewhere, every success path of a receive for this chain / an unknown destination writes exactly one ack, commitment deletion follows the stored==recomputed comparison and verification, and the ack handler performs outcome / fee / callback once each after verification. Not decided: histories, contract ackStatus semantics.",
+         "frozen canonical tables + acyclic path enumeration + store-family ownership", "§5 C05"),
+ 'C06': ("Decides that client updates are dominated by AuthRelayer(msg.ChainName, msg.Signer) and the client's CheckMsg, receives by the found-edge of the relayer lookup for (packet source chain, signer) whose result is the ack's fee recipient, that the registry functions answer positively only under chain==chainName of the signer's record, GetSigners are bound to the authorised fields, privileged contract methods (constant names) are invoked only by their owning handlers, every module EVM call uses a module address as from (one audited signer site), and lifecycle entry points are reachable only from the gov handler. Not decided: the contracts' own msg.sender checks (byte code).",
+         "frozen canonical tables + who-may-call over resolved callees + constant-argument ownership tables", "§5 C06"),
+ 'C07': ("Decides that every rejecting check of the tendermint client's update and proof paths is present with the same operands (trusted validator set hash vs stored next-validators hash, same revision, newer than trusted height, light.Verify bound to the stored consensus state / trusting period / ctx.BlockTime(), latest height only raised, consensus state = header time/app hash/next-validators hash, metadata at the header height, proof height <= latest, delay since processed time, expired status gate) and dominates the effects. Not decided: the inside of light.Verify, update histories.",
+         "frozen canonical guard/effect tables over SSA path conditions", "§5 C07"),
+ 'C08': ("Decides, for the ETH and the BSC copy, that the storage-proof verifier keeps every binding (contract address, account proof under the stored root, account RLP, single storage proof, slot key derived from the call's own triple with the commitment/ack key, storage proof under the same storage hash, 32-byte left-padded value equality, height <= head, confirmation delay) on every success path, and that both copies have identical canonical guard sets. Not decided: completeness (accept iff valid), trie library behaviour.",
+         "frozen canonical tables + sibling guard-set agreement", "§5 C08"),
+ 'C09': ("Decides that the BSC header path keeps all rejecting rules (structure, direct child of head, gas bounds, seal = coinbase, membership in the snapshot of current validators, recent-signer window, in/out-of-turn difficulty with sorted in-turn selection) and the state updates (signer recorded, pending set only at epoch blocks from header extra, switch only at the half-set offset, consensus state = header root/height/time, head := header). Not decided: ecrecover/sealHash vs real BSC, epoch histories.",
+         "frozen canonical guard/effect/store tables over SSA path conditions", "§5 C09"),
+ 'C10': ("Decides that the ETH header path keeps parent lookup by (parent hash, height-1), parent-hash equality, timestamp window, EIP-1559 gas/base-fee rules, difficulty equality and proof-of-work (light mode) except on Rinkeby, the seal checks, and the index/root/consensus-state/head updates. The 'forks never wedge it' and ancestry clauses are declined (history properties of RestrictChain's loops).",
+         "frozen canonical guard/effect/store tables over SSA path conditions", "§5 C10"),
+ 'C11': ("Decides that both conversion entry points are gated by MintingEnabled on the message's own fields (with all its rejecting conditions), dispatch on pair ownership with a rejecting default, and that each of the four conversion functions performs exactly its bank/EVM effects with amounts originating only from the message, propagates every error and reaches success only after the post-call balance equals pre-call balance +/- amount. Not decided: 'fully backed at all times' over histories, misreporting tokens.",
+         "frozen canonical tables + amount-origin dataflow + effect-set tables", "§5 C11"),
+ 'C12': ("Decides the index discipline of the registry: the denomination/contract tested as not-registered is the one indexed, whoever stores a pair indexes its contract and all its denominations under the pair's own id, delete removes every index entry, raw writes only in accessors with a fixed caller set, id depends on address and first denomination. Not decided: consistency over arbitrary governance histories.",
+         "guard-key = write-key identity over SSA path conditions, three-way-write tables, who-may-call/write", "§5 C12"),
+ 'C13': ("Decides written ⊆ exported ⊆ imported for every key family of the xibc and aggregate stores (writer shapes extracted symbolically; exporters reachable from ExportGenesis and iterating a prefix of the family), that no reader tokenises binary-height keys with an unbounded split, that every GenesisState field is exported and consumed, that sibling ClientType constants agree, that exports are sorted. One known finding (tendermint iteration keys). Not decided: value-level store equality.",
+         "symbolic key-shape extraction + call-graph reachability + table agreement", "§5 C13"),
+ 'C14': ("Decides that every map range, wall-clock read, random source, OS/filesystem/network access, goroutine, channel operation and runtime query reachable (VTA call graph) from all block-processing entry points is discharged by an order-insensitivity proof of the loop body, a telemetry-only dataflow, or an audited entry whose side condition (no disk directory in any reachable ethash Config, VerifySeal with fulldag=false) is re-checked. Not decided: replay equality itself, dependencies.",
+         "call-graph reachability + forbidden-construct inventory with machine-checked discharge", "§5 C14"),
+ 'C15': ("Decides that every panic source (explicit panic, Must* call, known may-panic callee, integer / or % by a non-constant, constant index or slice bound, unchecked type assertion) in code reachable from the non-recovered entry points is discharged by a class rule, a local guard, a validated-field fact (rejecting guard present in the stateless validator, re-extracted every run) or an audited entry; unaudited new sources are violations. One known finding (rvesting InitGenesis funding panic). Not decided: panics inside dependencies, computed indices beyond recognised idioms.",
+         "call-graph reachability + panic-source inventory with validator-guard side conditions", "§5 C15"),
+ 'C16': ("Decides that the ICS-20 hook returns the acknowledgement it was handed on every path, the middleware forwards unmodified arguments and returns the wrapped ack on failure, the conversion runs on the cache context with write() only on success, the converted amount/denom/receiver come from the one decoded packet, and the app wiring routes transfer through the middleware. Not decided: ibc-go's handling of the value, balances.",
+         "return-value origin + SSA path conditions + wiring tables", "§5 C16"),
+ 'C17': ("Decides that both adapters dispatch only logs of their system contract address, every event name is registered to the handler that parses that very event, handlers build messages only from event fields and return ExecuteMsg's error, ExecuteMsg validates and routes, BurnCoins is one transfer to the fee collector, and staking/gov keepers are wired to the redirecting bank keeper. Not decided: contract byte code emitting msg.sender, EVM nested calls.",
+         "frozen canonical tables + registration-table agreement + wiring tables", "§5 C17"),
+ 'C18': ("Decides that create/toggle/upgrade initialise the very client state they install on that chain's store and store the consensus state at its latest height with errors propagated, existence/type guards dominate writes, UpdateClient is gated by status and stores the returned state, and no implementation of an exported interface returns nil for a result that an in-scope caller dereferences unguarded. Not decided: 'proofs verify after the delay' as behaviour, proposal atomicity (gov).",
+         "argument/receiver origin identity + SSA path conditions + nil-result contradiction rule", "§5 C18"),
+ 'C19': ("Decides table agreement between ABI tuples, Go structs and JSON tags for all six (struct, tuple) pairs in both directions (pack via ToCamelCase, decode via JSON key), full field coverage, that commitments hash the whole encoding, key shapes (injective fixed-width height key, ordered triple keys, agreeing path/key constructors), prefix-free family heads, the identifier character class excluding '/', and sound key tokenisation. Not decided: decoder canonicality, value-level round trips.",
+         "table agreement over go/types + symbolic key shapes + constant evaluation of the identifier regexp", "§5 C19"),
+ 'C20': ("Decides that BeginBlocker does nothing unless enabled, adds exactly min-structure (balance if balance<reward else reward) of the reward's own denomination skipping empty pools, transfers once if non-zero via a single module-to-module send to the wired fee collector, that rvesting moves money nowhere else, runs before distribution, and that the validator rejects duplicate denominations. Not decided: supply conservation over block sequences (bank).",
+         "SSA path conditions + canonical comparison form + effect ownership + wiring tables", "§5 C20"),
 }
 checks, na = [], []
 for p in props:
